@@ -56,4 +56,4 @@ package render
 //@ names w ctx
 //@ requires args: w != nil && ctx != nil
 //@ assigns *
-//@ ensures onlyw: forall(x, "Val", x != w && !newbuf(x) ==> wtotal(x) == old(wtotal(x)))
+//@ ensures onlyw: forall(x, "Val", x != w && x != wsink(w) && !newbuf(x) ==> wtotal(x) == old(wtotal(x)))
